@@ -55,6 +55,11 @@ struct clist { static inline long copies = 0; std::vector<counted> items; clist(
 constexpr nterm<val> leaf("leaf"), mid("mid"); constexpr nterm<pairv> top("top");
 constexpr nterm<clist> cl("cl"); constexpr nterm<counted> ci("ci");
 constexpr nterm<val> rl("rl"), ra("ra");
+struct handle { static inline int copies = 0, next_id = 0; int id = 0, weight = 0; handle() = default; handle(int i, int w) : id(i), weight(w) {}
+  handle(const handle& o) : id(o.id), weight(o.weight) { ++copies; } handle(handle&& o) noexcept : id(o.id), weight(o.weight) { o.id = -1; }
+  handle& operator=(const handle& o) { id = o.id; weight = o.weight; ++copies; return *this; } handle& operator=(handle&& o) noexcept { id = o.id; weight = o.weight; o.id = -1; return *this; } };
+static_assert(std::is_trivially_destructible_v<handle>);
+constexpr nterm<handle> hl("hl"), hi("hi");
 static int extra() {
   int bad = 0;
   { static const parser q(top, terms('a', ','), nterms(top, mid, leaf), rules(
@@ -74,13 +79,24 @@ static int extra() {
   { static const parser q(rl, terms('a', '.'), nterms(rl, ra), rules(
       rl(ra) >= [](val&& x) { return val(x.read()); }, rl(ra, rl) >= [](val&& x, val&& r) { return val(std::to_string(x.read().size() + std::stoul(r.read()))); },
       ra('a', '.') >= [](skip, skip) { return val("1"); }));
-    for (size_t n : {1000u, 1023u, 1024u, 1025u, 2049u, 3000u}) {
+    for (size_t n : {1000u, 1023u, 1024u, 1025u, 2049u, 3000u, 65535u, 65536u, 65537u, 70000u}) {      // also beyond every 16-bit index
       std::string in; for (size_t i = 0; i < n; ++i) in += "a.";
       ledger before = L; std::string got;
       try { auto r = q.parse(string_buffer(std::move(in))); got = r ? r->read() : "<none>"; } catch (const std::exception& e) { got = std::string("threw ") + e.what(); }
       if (got != std::to_string(n) || !L.live.empty() || L.moved_from_reads != before.moved_from_reads || L.double_destroy != 0) {
         ++bad; std::cout << "FAIL right-recursive list of " << n << " values: result " << got << ", alive " << L.live.size() << ", moved-from reads " << (L.moved_from_reads - before.moved_from_reads) << "\n"; L.live.clear(); }
     } }
+  // trivially destructible value types with cstring_buffer: the value stack is then a fixed-capacity cvector; still no copy may be made
+  { static const parser q(hl, terms('x', ','), nterms(hl, hi), rules(
+      hi('x') >= [](skip) { return handle(++handle::next_id, 1); },
+      hl(hi) >= [](handle&& h) { return std::move(h); },
+      hl(hl, ',', hi) >= [](handle&& l, skip, handle&& i) { handle r(std::move(l)); r.weight += i.weight; return r; }));
+    auto one = [&](const char* what, auto&& buf) {
+      handle::copies = 0; handle::next_id = 0;
+      auto r = q.parse(buf);
+      if (!(r && r->weight == 5 && r->id == 1)) { ++bad; std::cout << "FAIL trivially destructible values through " << what << ": wrong result\n"; }
+      if (handle::copies != 0) { ++bad; std::cout << "FAIL trivially destructible values through " << what << ": the library copied semantic values " << handle::copies << " times (expected 0)\n"; } };
+    one("cstring_buffer", cstring_buffer("x,x,x,x,x")); one("string_buffer", string_buffer("x,x,x,x,x")); one("string_view_buffer", string_view_buffer("x,x,x,x,x")); }
   return bad;
 }
 int main() {
